@@ -38,6 +38,9 @@ CV_STEPS = {
     "cbca1": ("aggregation", {"aggregation_method": "cbca", "cbca_intensity": 30.0, "cbca_distance": 1}),
     "cbca2": ("aggregation", {"aggregation_method": "cbca", "cbca_intensity": 6.0, "cbca_distance": 2}),
     "cbca4": ("aggregation", {"aggregation_method": "cbca", "cbca_intensity": 12.0, "cbca_distance": 4}),
+    # arms of 1 or 2 pixels depending on the image (with distance 2 every arm is 1, with intensity 30 every arm of a
+    # 0..15 image has its full length)
+    "cbca3i": ("aggregation", {"aggregation_method": "cbca", "cbca_intensity": 6.0, "cbca_distance": 3}),
     "std": ("cost_volume_confidence", {"confidence_method": "std_intensity"}),
     "amb": ("cost_volume_confidence", {"confidence_method": "ambiguity", "eta_max": 0.7, "eta_step": 0.1}),
     "ambn": ("cost_volume_confidence", {"confidence_method": "ambiguity", "eta_max": 0.5, "eta_step": 0.25,
